@@ -22,7 +22,9 @@ Inductive run_outcome :=
 | RErrPlan (e : plan_error)
 | RErrInvalidInput
 | RErrOperator | RErrOther
-| RPanic | RTimeout.
+| RPanic | RTimeout
+| RNotRun                                             (* harness only: request not executed *)
+| ROkAny.                                             (* harness only (public-API mode): Ok, executed sequence not observable *)
 
 (* ---------------------------------------------------------------- Graph::validate_inputs *)
 Fixpoint dims_ok (expected : list (option N)) (shape : list N) : bool :=
@@ -168,6 +170,8 @@ Definition run_outcome_eqb (a b : run_outcome) : bool :=
   | RErrPlan e, RErrPlan e' => err_eqb e e'
   | RErrInvalidInput, RErrInvalidInput => true
   | RPanic, RPanic => true
+  | _, RNotRun => true
+  | ROk _ _, ROkAny => true
   | _, _ => false
   end.
 
@@ -205,7 +209,16 @@ Definition req_ok26 (g : graph) (meta : list (id * vmeta)) (r : rreq) : bool :=
       then request_valid_b g meta (rr_ins r) pouts ex && nodupb (rr_outs r) &&
            forallb (is_value_or_const g) (rr_outs r)
       else request_valid_b g meta (rr_ins r) (rr_outs r) ex
-  | RErrPlan _ | RErrInvalidInput => true
+  | ROkAny =>
+      (* the executed plan is not observable: any plan witnesses validity; use the model's *)
+      match create_plan g (map i_id (rr_ins r)) (rr_outs r) (rr_partial r) false with
+      | Ok p => if rr_partial r
+                then validate_inputs g meta (rr_ins r) && nodupb (map i_id (rr_ins r)) &&
+                     forallb (is_value_or_const g) (map i_id (rr_ins r))
+                else request_valid_b g meta (rr_ins r) (rr_outs r) p
+      | _ => false
+      end
+  | RErrPlan _ | RErrInvalidInput | RNotRun => true
   | _ => false
   end.
 
